@@ -135,6 +135,38 @@ def run(ctx):
                               {'harness_line': line, 'buffer_hex': b})
         add('stored_model', 'idfield ' + ident, None)
 
+    # ---- nested buffers: each buffer carries exactly the identifier IT was finished with (none when null), whatever the parent has
+    nb = []
+    for pid in ('null', '4d4f4e53', '41004344'):
+        for nid in ('null', '00000000', '4e455354', '4d4f4e53'):
+            for al in (4, 8):
+                nb.append('nbuild %s %s %d' % (pid, nid, al))
+    rcn, nbuilt, errn = H.run(nb)
+    if len(nbuilt) != len(nb): raise lib.CheckError('ident_diff crashed while building nested buffers: ' + errn[-1500:])
+    for line, b in zip(nb, nbuilt):
+        _, pid, nid, al = line.split()
+        ctx.count(line, klass='nested_identifier')
+        if b == 'FAIL':
+            ctx.violation('nested-build-failed', 'builder failed on a nested struct-root buffer: ' + line, {'harness_line': line}); continue
+        raw = bytes.fromhex(b)
+        rd = lambda p: int.from_bytes(raw[p:p + 4], 'little')
+        tp = rd(0); vt = tp - int.from_bytes(raw[tp:tp + 4], 'little', signed=True)
+        fo = int.from_bytes(raw[vt + 4:vt + 6], 'little'); slot = tp + fo; vec = slot + rd(slot)
+        nlen = rd(vec); nest = raw[vec + 4:vec + 4 + nlen]
+        pidv = 0 if pid == 'null' else int.from_bytes(bytes.fromhex(pid), 'little')
+        nidv = 0 if nid == 'null' else int.from_bytes(bytes.fromhex(nid), 'little')
+        stored_parent = rd(4)
+        if pidv and stored_parent != pidv:
+            ctx.violation('stored-identifier:parent-of-nested', 'parent finished with %s carries %08x' % (pid, stored_parent), {'harness_line': line, 'buffer_hex': b})
+        root = int.from_bytes(nest[0:4], 'little')
+        if nidv:
+            got = int.from_bytes(nest[4:8], 'little')
+            if got != nidv:
+                ctx.violation('stored-identifier:nested', 'nested buffer finished with identifier %s inside a parent with %s carries %08x' % (nid, pid, got), {'harness_line': line, 'buffer_hex': b})
+        elif int(al) == 4 and root != 4:
+            ctx.violation('stored-identifier-none:nested', 'nested buffer finished with a null/zero identifier inside a parent with identifier %s has a %d-byte header (identifier field %s present)' % (
+                pid, root, nest[4:8].hex()), {'harness_line': line, 'buffer_hex': b})
+
     reqs_for = lambda ident: ['null', 'h:0', 's:-', 's:' + (ident if ident != 'null' else '4d4f4e53')]
     acc_cases = []   # (klass, model line, impl line, oracle expected accept or None, description)
     for ws, ident, al, raw in bufs:
